@@ -14,7 +14,7 @@ def run(ctx):
     ctx.build(race=True)
     total_runs, total_events, races_total, samples = 0, 0, 0, []
     distinct = set()
-    for family, n in (("markupy", 50), ("flow", 60), ("cmds", 40), ("expr", 30)):
+    for family, n in (("markupy", 50), ("mathy", 40), ("flow", 60), ("cmds", 40), ("expr", 30)):
         cases_path = cc.gen_cases(ctx, family, n, "cases_%s.ndjson" % family)
         cases, _ = cc.load_cases(cases_path)
         for g in ((2, 4, 8, 16) if thorough else (4, 16)):
